@@ -38,6 +38,9 @@ theorem starts_of_messages : ∀ (evs : List OutEv.Ev) (s : St),
     have ih := starts_of_messages es (step s e).1
     rw [msgsFrom_cons, suiteStarts_append, testStarts_append, ih.1, ih.2]
     cases e with
+    | testRun i n =>
+      simp only [msgsOf]
+      by_cases h : n > 1 <;> simp only [h, if_true, if_false] <;> exact ⟨rfl, rfl⟩
     | testsStarted => exact ⟨rfl, rfl⟩
     | groupStarted t => exact ⟨rfl, rfl⟩
     | testStarted t =>
